@@ -182,8 +182,7 @@ project.setup(payload.MapReduce(serving.Echo.builder(), serving.Model.builder(),
 '''
 
 
-def setup_registry(root, generations):
-    """Publish the package and train `generations` generations with the real dask runner (synchronous)."""
+def _publish_and_train(root, generations):
     from forml import project
     from forml.provider.registry.filesystem import posix
     from forml.provider.runner import dask as daskrunner
@@ -201,4 +200,18 @@ def setup_registry(root, generations):
     for _ in range(generations):
         instance = asset.Instance(PROJECT, RELEASE, None, directory)
         daskrunner.Runner(instance, feed, None, scheduler='synchronous').train()
-    return registry, feed
+
+
+def setup_registry(root, generations):
+    """Publish the package and train `generations` generations with the real dask runner (synchronous) - in a child
+    process: importing dask.distributed installs tblib's pickling support for exceptions process-wide, which a serving
+    process that never trains does not have (it changes what survives the trip back from the response-encoding pool)."""
+    import multiprocessing
+
+    from forml.provider.registry.filesystem import posix
+    child = multiprocessing.get_context('fork').Process(target=_publish_and_train, args=(str(root), generations))
+    child.start()
+    child.join(600)
+    if child.exitcode != 0:
+        raise RuntimeError(f'training the serving fixture failed (exit code {child.exitcode})')
+    return posix.Registry(pathlib.Path(root) / 'registry'), Feed()
